@@ -1125,6 +1125,15 @@ func (env *ExprEnv) call(e *ast.CallExpr) TV {
 		a := env.coerce(env.eval(e.Args[0]), nil, "")
 		b := env.coerce(env.eval(e.Args[1]), nil, "")
 		return TV{T: fmt.Sprintf("(=> %s %s)", a.T, b.T), Ty: types.Typ[types.Bool], Sort: "Bool"}
+	case "hint":
+		// hint(t, body) means body; when body is a goal the ground term t is made visible to
+		// the solver's quantifier instantiation (mark is true everywhere)
+		t := env.coerce(env.eval(e.Args[0]), nil, "")
+		b := env.coerce(env.eval(e.Args[1]), nil, "")
+		fn := "mark_" + mangle(t.Sort)
+		v.pre("fn "+fn, fmt.Sprintf("(declare-fun %s (%s) Bool)", fn, t.Sort))
+		v.pre("fnax "+fn, fmt.Sprintf("(assert (forall ((x %s)) (! (%s x) :pattern ((%s x)))))", t.Sort, fn, fn))
+		return TV{T: fmt.Sprintf("(=> (%s %s) %s)", fn, t.T, b.T), Ty: types.Typ[types.Bool], Sort: "Bool"}
 	case "iff":
 		a := env.coerce(env.eval(e.Args[0]), nil, "")
 		b := env.coerce(env.eval(e.Args[1]), nil, "")
@@ -1149,6 +1158,8 @@ func (env *ExprEnv) call(e *ast.CallExpr) TV {
 		k := env.coerce(env.eval(e.Args[1]), mt.Key(), v.ghostSort(mt.Key()))
 		x := env.coerce(env.eval(e.Args[2]), mt.Elem(), v.ghostSort(mt.Elem()))
 		return TV{T: fmt.Sprintf("(store %s %s %s)", m.T, k.T, x.T), Ty: m.Ty, Sort: m.Sort}
+	case "allof":
+		return env.quantMulti(e)
 	case "forall", "exists", "all", "any":
 		return env.quant(fname, e)
 	case "len", "cap":
@@ -1323,6 +1334,80 @@ func (v *FV) typeID(t types.Type) Term {
 		v.preamble = append(v.preamble, fmt.Sprintf("(define-fun %s () Int %d)", name, n))
 	}
 	return name
+}
+
+// quantMulti: allof(x, "T1", y, "T2", ..., body) is one universal quantifier over all the
+// variables; body may be trigger(t1, ..., tn, b): b with the multi-pattern (t1 ... tn).
+func (env *ExprEnv) quantMulti(e *ast.CallExpr) TV {
+	v := env.v
+	if len(e.Args) < 3 || len(e.Args)%2 != 1 {
+		fail("allof(x, \"T\", ..., body)")
+	}
+	type saved struct {
+		name string
+		tv   TV
+		had  bool
+	}
+	var sv []saved
+	var binders, guards []string
+	for i := 0; i+1 < len(e.Args); i += 2 {
+		id, ok := e.Args[i].(*ast.Ident)
+		lit, ok2 := e.Args[i+1].(*ast.BasicLit)
+		if !ok || !ok2 {
+			fail("allof: binder %d must be name, \"type\"", i/2+1)
+		}
+		ts, _ := strconv.Unquote(lit.Value)
+		bty := v.parseType(ts, env.pkg)
+		if bty == nil {
+			fail("unknown type %s", ts)
+		}
+		bs := v.sortOf(bty)
+		if _, isMap := bty.(*types.Map); isMap {
+			bs = v.ghostSort(bty)
+		}
+		v.ctr++
+		bname := fmt.Sprintf("%s_q%d", mangle(id.Name), v.ctr)
+		old, had := env.vars[id.Name]
+		sv = append(sv, saved{id.Name, old, had})
+		env.vars[id.Name] = TV{T: bname, Ty: bty, Sort: bs}
+		binders = append(binders, fmt.Sprintf("(%s %s)", bname, bs))
+		if _, _, isInt := intInfo(bty); isInt {
+			if g := v.rangeFact(bname, bty); g != "true" {
+				guards = append(guards, g)
+			}
+		}
+	}
+	body := e.Args[len(e.Args)-1]
+	var pats []string
+	v.inBinder++
+	b := func() TV {
+		defer func() { v.inBinder-- }()
+		if ce, ok := body.(*ast.CallExpr); ok {
+			if fid, ok := ce.Fun.(*ast.Ident); ok && fid.Name == "trigger" && len(ce.Args) >= 2 {
+				for _, a := range ce.Args[:len(ce.Args)-1] {
+					pats = append(pats, env.eval(a).T)
+				}
+				return env.coerce(env.eval(ce.Args[len(ce.Args)-1]), nil, "")
+			}
+		}
+		return env.coerce(env.eval(body), nil, "")
+	}()
+	for _, s := range sv {
+		if s.had {
+			env.vars[s.name] = s.tv
+		} else {
+			delete(env.vars, s.name)
+		}
+	}
+	guard := "true"
+	if len(guards) > 0 {
+		guard = "(and " + strings.Join(guards, " ") + ")"
+	}
+	inner := fmt.Sprintf("(=> %s %s)", guard, b.T)
+	if len(pats) > 0 && !v.noTriggers {
+		inner = fmt.Sprintf("(! %s :pattern (%s))", inner, strings.Join(pats, " "))
+	}
+	return TV{T: fmt.Sprintf("(forall (%s) %s)", strings.Join(binders, " "), inner), Ty: types.Typ[types.Bool], Sort: "Bool"}
 }
 
 func (env *ExprEnv) quant(kind string, e *ast.CallExpr) TV {
